@@ -13,7 +13,7 @@ from __future__ import annotations
 
 from fractions import Fraction
 
-from ..model import Program
+from ..model import Program, expand_locals, norm, single_assignment_locals
 from ..report import AnalysisError
 from ..typeeval import TOP, Lattice, TypeEval
 
@@ -272,6 +272,21 @@ def rule_r4(rep, program: Program):
                 if not ok:
                     case_txt = f" (with the factor flagged {'lower' if asm.get('cho_lower') else 'upper'}-triangular)" if "cho_lower" in asm else ""
                     r.violate(PROP, f"{f.qualname}[{cname}]:form:{asm}", f"{cname}.{meth}{case_txt} evaluates to {alg.simplify(got)!r} but the derivative with respect to the {kind} parameter is {alg.simplify(w)!r} (matrix calculus; x = M^-1 v): a factor, side, transpose or the convention of a LAPACK solve is wrong", node=f.node, file=f.file)
+    # gradients with respect to a triangular factor live in the factor's own triangle: the mask must be
+    # oriented by the factor *object* (an array factor was wrapped with the constructor flag; a matrix
+    # factor carries its own flag and the constructor flag is ignored for it)
+    for cname in ("TriangularFactoredDefiniteMatrix",):
+        k = program.cls(cname)
+        for meth in ("grad_log_abs_det", "grad_quadratic_form_inv"):
+            f = k.resolve(meth)
+            for c in ast.walk(f.node):
+                if isinstance(c, ast.Call) and norm(c.func) == "_make_array_triangular":
+                    flag = next((kw.value for kw in c.keywords if kw.arg == "lower"), c.args[1] if len(c.args) > 1 else None)
+                    flag = expand_locals(flag, single_assignment_locals(f.node)) if flag is not None else None
+                    ok = flag is not None and norm(flag) in ("self.factor.lower", "self._factor.lower")
+                    r.inst({"class": cname, "method": f.qualname, "triangle of the gradient taken from": norm(flag) if flag is not None else None})
+                    if not ok:
+                        r.violate(PROP, f"{f.qualname}:mask-flag:{norm(flag) if flag is not None else None}", f"{f.qualname} keeps the triangle selected by `{norm(flag) if flag is not None else None}` instead of the factor object's own `lower` flag: for a TriangularMatrix / InverseTriangularMatrix factor (also the ones `inv` and scalar multiples build) the constructor flag is ignored, so the gradient is returned in the wrong triangle", node=c, file=f.file)
     return r
 
 
@@ -285,7 +300,7 @@ def run(rep, program: Program, tier: str) -> None:
         "symmetry / scaling tables (trusted): " + "; ".join(f"{c}: {s}" for c, s, *_ in PARITY),
         "numeric factors, transposes, triangular masking and behaviour at repeated eigenvalues (SoftAbs) are not decided",
     ]
-    rule_r1(rep, program)
-    rule_r2(rep, program)
-    rule_r3(rep, program)
-    rule_r4(rep, program)
+    rep.isolate(rule_r1, rep, program)
+    rep.isolate(rule_r2, rep, program)
+    rep.isolate(rule_r3, rep, program)
+    rep.isolate(rule_r4, rep, program)
